@@ -84,7 +84,7 @@ class C15(core.Check):
     pid = 'C15'
     driver = 'drv_c15'
     quick_cases = 600
-    thorough_cases = 6000
+    thorough_cases = 24000
     rule = ('one case = one layer (FTTransformerConvs / TabTransformerConv / ExcelFormerConv / TromptConv / '
             'ExcelFormerDecoder / TromptDecoder) with random hyper-parameters (channels 2-8, heads 1-2, layers 1-2, '
             'columns 1-5, prompts 2/4, out 1-3), generic random parameters in float64 (state_dict exported as bit '
